@@ -15,6 +15,11 @@ type summaryFn func(in *Interp, fn *ssa.Function, args []Value, caller *frame) V
 
 type noSummary struct{}
 
+// library packages whose initialisers are interpreted (their package-level
+// variables, mostly sentinel errors, are read by gorm and the harnesses)
+var initPkgs = map[string]bool{"errors": true, "io": true, "context": true, "strconv": true,
+	"database/sql/driver": true, "database/sql": true}
+
 func (in *Interp) summary(fn *ssa.Function, args []Value, caller *frame) (Value, bool) {
 	env := in.env
 	var sf summaryFn
@@ -40,8 +45,12 @@ func (env *Env) findSummary(fn *ssa.Function) summaryFn {
 	// package initialisers of non-gorm packages are skipped (their globals are
 	// produced by summaries / the native bridge)
 	if fn.Signature.Recv() == nil && fn.Signature.Params().Len() == 0 && (fn.Name() == "init" || strings.HasPrefix(fn.Name(), "init#")) && fn.Parent() == nil {
-		if !isGormPath(pkgPath) {
+		if !isGormPath(pkgPath) && !initPkgs[pkgPath] {
 			return func(*Interp, *ssa.Function, []Value, *frame) Value { return nil }
+		}
+		if !isGormPath(pkgPath) && fn.Name() != "init" {
+			// init#k of an allow-listed library package: interpreted
+			return nil
 		}
 		if fn.Name() == "init" && fn.Synthetic != "" {
 			// gorm package init: runs once per world (dependency order by runInits)
@@ -86,6 +95,10 @@ func (env *Env) findSummary(fn *ssa.Function) summaryFn {
 		}
 	}
 	if pkgPath == "reflect" {
+		if strings.HasPrefix(name, "reflect.TypeFor[") && len(fn.TypeArgs()) == 1 {
+			ta := fn.TypeArgs()[0]
+			return func(in *Interp, _ *ssa.Function, _ []Value, _ *frame) Value { return in.rtI(ta) }
+		}
 		if s := reflectSummary(name); s != nil {
 			return s
 		}
@@ -382,6 +395,9 @@ func init() {
 		},
 		"gorm.io/gorm/utils.CallerFrame": func(in *Interp, fn *ssa.Function, a []Value, _ *frame) Value {
 			return zero(fn.Signature.Results().At(0).Type())
+		},
+		"internal/reflectlite.TypeOf": func(in *Interp, _ *ssa.Function, a []Value, _ *frame) Value {
+			return in.rtI(a[0].(iface).t)
 		},
 		"go/ast.IsExported": func(in *Interp, _ *ssa.Function, a []Value, _ *frame) Value {
 			n := mustStr(a[0], "IsExported")
@@ -835,7 +851,10 @@ func init() {
 			return zero(fn.Signature.Results().At(0).Type())
 		},
 		"(*hash/maphash.Hash).Sum64": func(in *Interp, fn *ssa.Function, a []Value, _ *frame) Value {
-			return in.nondet("maphash", 64, "uint")
+			// a fresh, distinct value per call (concrete: hash collisions between
+			// save-point names are outside every claim)
+			in.timeTick++
+			return bv(64, uint64(7000+in.timeTick))
 		},
 		"(*hash/maphash.Hash).SetSeed":     retNil,
 		"(*hash/maphash.Hash).WriteString": retNilTuple,
